@@ -511,7 +511,9 @@ impl<'a, R: CharRead> Parser<'a, R> {
             return false;
         }
 
-        self.reduce_op(999);
+        // like the closing bracket of a list: arguments are terms of priority <= 999, which in
+        // reduce_op's convention (strict for xfy/fy) is the bound 1000.
+        self.reduce_op(1000);
 
         let arity = match self.compute_arity_in_brackets() {
             Some(arity) => arity,
